@@ -390,6 +390,23 @@ impl Check for SCheck {
         json!({"history": h, "seed_for_incremental_result": seed})
     }
     fn run_case(&self, case: &Value) -> Result<RunOut, String> {
+        if let (Some(o), Some(q)) = (case.get("grid_order"), case.get("incoming")) {
+            // a case of the enumerated single-order workload (C05)
+            let o: OrderSpec = serde_json::from_value(o.clone()).map_err(|e| e.to_string())?;
+            let q = q.as_u64().ok_or("bad incoming")?;
+            let hooks = SeqHooks::new(ClockCfg::default(), 1, 4);
+            let _i = Installed::new(hooks);
+            let mut out = RunOut::default();
+            if let Some(d) = check_match_against(&o.to_lib(), q) {
+                out.violations.push(Violation {
+                    prop: "C05".into(),
+                    sig: "C05/match-against".into(),
+                    at: 0,
+                    detail: d,
+                });
+            }
+            return Ok(out);
+        }
         let h: History =
             serde_json::from_value(case["history"].clone()).map_err(|e| e.to_string())?;
         let seed = case["seed_for_incremental_result"].as_u64();
